@@ -39,16 +39,44 @@ def drive(sim, steps, execute, after_group=None, trace=None, barrier=None, split
     n = len(steps)
     while i < n:
         j = i + 1
-        while (j < n and steps[j].get("when", ["d", 0.01])[0] == "s" and not (barrier and barrier(steps[j - 1]))
+        while (j < n and steps[j].get("when", ["d", 0.01])[0] in ("s", "i") and not (barrier and barrier(steps[j - 1]))
                and not (barrier and barrier(steps[j])) and not (splitter and splitter(steps[i:j], steps[j]))):
             j += 1
         t = resolve(sim, steps[i].get("when", ["d", 0.01]))
 
-        def run(i=i, j=j):
-            for k in range(i, j):
-                execute(k, steps[k])
+        pending = [0]
+        failure = []
 
-        sim.do_at(t, run)
+        def run_from(k, j=j):
+            # executes steps k..j-1; a step with when ["i", n] is pushed n iterations ahead with call_soon
+            try:
+                while k < j:
+                    w = steps[k].get("when", ["d", 0.01])
+                    if w[0] == "i" and not getattr(run_from, "resumed", None) == k:
+                        run_from.resumed = k
+                        pending[0] += 1
+                        hops = max(1, min(6, int(w[1])))
+
+                        def hop(left, k=k):
+                            if left > 1:
+                                sim.loop.call_soon(hop, left - 1)
+                                return
+                            pending[0] -= 1
+                            run_from(k)
+
+                        sim.loop.call_soon(hop, hops)
+                        return
+                    execute(k, steps[k])
+                    k += 1
+            except BaseException as exc:  # noqa: BLE001 - re-raised outside the loop below
+                failure.append(exc)
+
+        sim.do_at(t, run_from, i)
+        while pending[0] and not failure:
+            sim.step()
+        sim.settle()
+        if failure:
+            raise failure[0]
         if trace is not None:
             trace.append((i, j, sim.now))
         if after_group:
